@@ -204,6 +204,14 @@ func (c *codecV1) decodeRegionError(regionError *errorpb.Error) (*errorpb.Error,
 			}
 		}
 	}
+	if errInfo := regionError.BucketVersionNotMatch; errInfo != nil {
+		// The bucket keys are in the same wire form as the ones PD reports;
+		// RegionCache.OnBucketVersionNotMatch installs them as the region's buckets.
+		errInfo.Keys, err = c.DecodeBucketKeys(errInfo.Keys)
+		if err != nil {
+			return nil, err
+		}
+	}
 	return regionError, nil
 }
 
